@@ -24,7 +24,7 @@ CHECKS = {
             "5 C03"),
     "C08": ("exploration",
             "deterministic simulation: breadth-first small-scope sweep over pipe/role call sequences (depth 4/5) plus seeded longer ones, with probe packets from a simulated peer radio",
-            "All call sequences over a 12-symbol alphabet up to depth 4 (quick) or 5 (thorough) and seeded ones to depth 12 are executed on the chip model; after every RX entry / TX-mode open_tx_pipe the chip's pipe-0 state is compared with a 3-variable reference model and confirmed functionally by probe packets and an acknowledged send() through the simulated air; CE-vs-CONFIG ordering is monitored in the chip model.",
+            "All call sequences over a 12-symbol alphabet up to depth 5 (quick) or 6 (thorough) and seeded ones to depth 12 are executed on the chip model; after every RX entry / TX-mode open_tx_pipe the chip's pipe-0 state is compared with a 3-variable reference model and confirmed functionally by probe packets and an acknowledged send() through the simulated air; CE-vs-CONFIG ordering is monitored in the chip model.",
             "Trusts chip/air model decision M2; short addresses compared over the written prefix only.",
             "5 C08"),
     "C09": ("exploration",
